@@ -73,7 +73,7 @@ def make(tab, header=None):
 
     header = list(header or tab["header"])
     data = [[pyval(c) for c in r] for r in tab["rows"]]
-    return make_table(header=header, data=data, title=text(tab.get("title", [])))
+    return make_table(header=header, data=data, title=text(tab.get("title", [])), index_name=tab.get("index") or None)
 
 
 def rows_of(table):
@@ -106,6 +106,21 @@ def same_table(real, to, tag="", check_header=True):
         raise Diff(f"{tag}header", {"expected": exp, "observed": obs})
     if obs["shape"][0] != len(exp["rows"]):
         raise Diff(f"{tag}shape", {"expected": exp, "observed": obs})
+
+
+def same_records(real, to, tag=""):
+    """rows as records (column name -> value), in row order: independent of the column order of the
+    result and of either operand.  Reading index_name first settles the lazy index re-ordering of the
+    header (and raises when the table cannot honour its index)."""
+    _ = real.index_name
+    hdr = list(real.header)
+    obs = [dict(zip(hdr, r)) for r in norm_rows(rows_of(real))]
+    exp = [dict(zip(to["header"], r)) for r in spec_rows(to["rows"])]
+    detail = {"expected": {"header": list(to["header"]), "records": exp}, "observed": {"header": hdr, "records": obs}}
+    if sorted(hdr) != sorted(to["header"]):
+        raise Diff(f"{tag}header", detail)
+    if obs != exp:
+        raise Diff(f"{tag}rows", detail)
 
 
 # --------------------------------------------------------------------------
@@ -232,26 +247,40 @@ def relational_case(rec):
                     return None
                 raise Diff("no-exception", {"expected": "raises (duplicate header values)", "observed": observe(r)})
             same_table(t.transposed(new, select_as_header=sel), to)
-        elif act in ("InnerJoin", "NaturalJoin", "CrossJoin"):
-            o = make(frm["oth"])
-            hdr = True
+        elif act in ("InnerJoin", "NaturalJoin", "NaturalJoinRenamed", "CrossJoin", "AppendedRenamed"):
+            ot = frm["oth"]
+            if act in ("NaturalJoinRenamed", "AppendedRenamed"):
+                ren = lambda c: "s" if c == "t" else c
+                ot = dict(ot, header=[ren(c) for c in ot["header"]], index=ren(ot.get("index", "")))
+            o = make(ot)
+            indexed = bool(frm["tab"].get("index") or ot.get("index"))
+
+            def same(real, tag=""):
+                same_records(real, to, tag)
+                if not indexed:  # without an index the column order of the result is determined as well
+                    same_table(real, to, tag=tag, check_header=bool(frm["tab"]["rows"] or ot["rows"]) or act != "AppendedRenamed")
+
             if act == "InnerJoin":
-                ks, ko = args
+                ks, ko, px = args
                 a = dict(columns_self=ks[0] if len(ks) == 1 else list(ks), columns_other=ko[0] if len(ko) == 1 else list(ko))
-                same_table(t.inner_join(o, **a), to)
-                same_table(t.joined(o, **a), to, tag="joined:")
-            elif act == "NaturalJoin":
-                same_table(t.joined(o), to, tag="joined:")
-                same_table(t.inner_join(o, use_index=False), to)
+                if px != "right_":
+                    a["col_prefix"] = px
+                same(t.inner_join(o, **a))
+                same(t.joined(o, **a), tag="joined:")
+            elif act in ("NaturalJoin", "NaturalJoinRenamed"):
+                (px,) = args
+                a = {} if px == "right_" else {"col_prefix": px}
+                same(t.joined(o, **a), tag="joined:")
+                same(t.inner_join(o, use_index=False, **a))
+            elif act == "CrossJoin":
+                (px,) = args
+                a = {} if px == "right_" else {"col_prefix": px}
+                same(t.cross_join(o, **a))
+                same(t.joined(o, inner_join=False, **a), tag="joined:")
             else:
-                same_table(t.cross_join(o), to)
-                same_table(t.joined(o, inner_join=False), to, tag="joined:")
-        elif act == "AppendedRenamed":
-            (nc,) = args
-            oh = ["s" if c == "t" else c for c in frm["oth"]["header"]]
-            o = make(frm["oth"], header=oh)
-            same_table(t.appended(nc or None, o), to, check_header=hdr or len(frm["oth"]["rows"]) > 0)
-            same_table(t.appended(nc or None, [o]), to, tag="list:", check_header=hdr or len(frm["oth"]["rows"]) > 0)
+                (nc,) = args
+                same(t.appended(nc or None, o))
+                same(t.appended(nc or None, [o]), tag="list:")
         else:
             raise ValueError(f"unknown action {act}")
     except Diff as d:
